@@ -120,6 +120,10 @@ impl Planner {
             2 => 3,
             _ => 0,
         };
+        if interesting && self.hooks && rng.chance(1, 16) {
+            // sampled runs also record every intermediate D-set of simplify
+            spec.rec_states = true;
+        }
         if interesting && self.hooks && rng.chance(1, 5) {
             // steered deviation: natural everywhere except one or two ordinals
             let n = 1 + rng.below(2);
@@ -216,6 +220,22 @@ impl Planner {
                 s.deep = r < 2 || (thorough && r % 50 == 0);
                 self.perturb(&mut s, &mut rng, true);
                 specs.push(s);
+            }
+        }
+        // B3b: systematic single deviations (seam S) on the corpus literals
+        if self.hooks {
+            let (max_ord, max_opt) = if thorough { (8, 16) } else { (3, 4) };
+            for e in corpus.k0.iter() {
+                for ord in 0..max_ord {
+                    for opt in 0..max_opt {
+                        let (mut s, mut rng) = self.base_spec(&e.id, &e.text, Op::IsEuclidean);
+                        s.known_euclidean = true;
+                        s.k0 = rng.next_u64();
+                        s.k1 = rng.next_u64();
+                        s.steer = vec![(ord, opt)];
+                        specs.push(s);
+                    }
+                }
             }
         }
         // B4: verified covers as base symbols (renumbered, half dualised)
@@ -413,6 +433,36 @@ impl Planner {
                 s.expect = Expect::Unknown;
                 self.perturb(&mut s, &mut rng, false);
                 specs.push(s);
+            }
+        }
+        // B6: systematic single deviations (seam S): option j at decision i,
+        // natural everywhere else, for the first decisions of the corpus inputs
+        if self.hooks {
+            let (max_ord, max_opt) = if thorough { (8, 16) } else { (3, 6) };
+            let mut bases: Vec<(String, String, Vec<Xf>)> = vec![];
+            for e in corpus.k0.iter() {
+                bases.push((e.id.clone(), e.text.clone(), vec![]));
+                bases.push((format!("{}d", e.id), e.text.clone(), vec![Xf::Dual]));
+            }
+            for (gi, e) in corpus.g.iter().enumerate() {
+                if kplus[gi] && census_g[gi].has_ptc() && (thorough || gi < corpus.extra_from) {
+                    bases.push((e.id.clone(), e.text.clone(), vec![]));
+                }
+            }
+            for (group, text, pre) in bases {
+                for ord in 0..max_ord {
+                    for opt in 0..max_opt {
+                        let (mut s, mut rng) = self.base_spec(&group, &text, Op::SimplifyPtc);
+                        s.xf = pre.clone();
+                        s.expect = Expect::Torus;
+                        s.known_euclidean = true;
+                        s.k0 = rng.next_u64();
+                        s.k1 = rng.next_u64();
+                        s.steer = vec![(ord, opt)];
+                        s.rec_states = opt == 0 && ord == 0;
+                        specs.push(s);
+                    }
+                }
             }
         }
         // B5: pseudo-toroidal covers of verified small covers of the corpus
